@@ -72,8 +72,14 @@ CLAIMS.update({
          'time-zone symmetry, running<=>armed, out-parameter/strictly-after discipline of every calculateNextLocalTimeSec', '§4 C20',
          'interval evaluation + data-dependence/path rules over clang AST/CFG'),
 })
+CLAIMS['C07'] = ('index arithmetic of the byte buffer decided by linear constant propagation (every field an affine form over its entry value, relational '
+                 'merges): 0 <= read <= write <= size re-established on every path class of every index-writing method; every internal memcpy/memmove inside source '
+                 'and destination bounds, reading exactly the source\'s readable window, with exit indices denoting exactly the copied bytes; ensureWritableSize '
+                 'postcondition (room >= n, readable length unchanged); append/fetch reserve-copy-commit and min-copy-consume shapes; copy independence. FIFO equality '
+                 'of contents as a history property stays undecided', '§10.6 (replaces the not-applicable of §5)',
+                 'linear (affine) constant propagation + sign decision over chain slacks, on the clang CFG')
 NA = {
- 'C07': 'every clause is value-level (byte equality, index arithmetic of the three-way space policy): needs a relational numeric domain or a solver, '
+ 'C07_old': 'every clause is value-level (byte equality, index arithmetic of the three-way space policy): needs a relational numeric domain or a solver, '
         'outside the static-analysis family as available here (DESIGN.md §5)',
 }
 
